@@ -18,13 +18,21 @@ import (
 type failMode int
 
 const (
-	noFail      failMode = iota
-	failZero             // accept 0 bytes, return error
-	failShort            // accept a strict prefix, return error
-	failAllErr           // accept everything but still return an error (legal: n == len(p), err != nil)
+	noFail     failMode = iota
+	failZero            // accept 0 bytes, return error
+	failShort           // accept a strict prefix, return error
+	failAllErr          // accept everything but still return an error (legal: n == len(p), err != nil)
 )
 
 var errInjected = errors.New("injected write failure")
+
+// tempError looks like a transient OS/network error (EINTR, a timeout): code that
+// retries "temporary" errors must still report the failure if it does not fully recover.
+type tempError struct{}
+
+func (tempError) Error() string   { return "injected temporary write failure" }
+func (tempError) Temporary() bool { return true }
+func (tempError) Timeout() bool   { return true }
 
 type faultyWriter struct {
 	r         *driver.Run
@@ -33,8 +41,16 @@ type faultyWriter struct {
 	plan      func(call int, p []byte) failMode // decides per call
 	fired     int
 	permanent bool // once failed, always fail
+	temp      bool // failures carry an error with Temporary() == true
 	dead      bool
 	firstFail int
+}
+
+func (w *faultyWriter) err() error {
+	if w.temp {
+		return tempError{}
+	}
+	return errInjected
 }
 
 func (w *faultyWriter) Write(p []byte) (int, error) {
@@ -54,14 +70,14 @@ func (w *faultyWriter) Write(p []byte) (int, error) {
 		n := len(p) / 2
 		w.buf = append(w.buf, p[:n]...)
 		w.note(k, "short", len(p), n)
-		return n, errInjected
+		return n, w.err()
 	case failAllErr:
 		w.buf = append(w.buf, p...)
 		w.note(k, "full-count-with-error", len(p), len(p))
-		return len(p), errInjected
+		return len(p), w.err()
 	default:
 		w.note(k, "zero", len(p), 0)
-		return 0, errInjected
+		return 0, w.err()
 	}
 }
 
@@ -75,6 +91,8 @@ func (w *faultyWriter) note(k int, kind string, l, n int) {
 	}
 	if w.dead && w.fired > 1 {
 		w.r.Fault("write-after-permanent-failure")
+	} else if w.temp {
+		w.r.Fault("write-" + kind + "-temporary-error")
 	} else {
 		w.r.Fault("write-" + kind)
 	}
@@ -254,12 +272,15 @@ var kinds = []struct {
 	name      string
 	mode      failMode
 	permanent bool
+	temp      bool
 }{
-	{"transient-zero", failZero, false},
-	{"transient-short", failShort, false},
-	{"transient-fullcount", failAllErr, false},
-	{"permanent-zero", failZero, true},
-	{"permanent-short", failShort, true},
+	{"transient-zero", failZero, false, false},
+	{"transient-short", failShort, false, false},
+	{"transient-fullcount", failAllErr, false, false},
+	{"permanent-zero", failZero, true, false},
+	{"permanent-short", failShort, true, false},
+	{"transient-zero-temporary-error", failZero, false, true},
+	{"transient-short-temporary-error", failShort, false, true},
 }
 
 func maxN(tier string) int {
@@ -280,8 +301,16 @@ func largeNs(tier string) []int {
 }
 
 type caseCfg struct {
-	n   int
-	fam int
+	n       int
+	fam     int
+	sampled bool // write positions are sampled, not enumerated (very large n)
+}
+
+func hugeNs(tier string) []int {
+	if tier == "thorough" {
+		return []int{255, 256, 257, 300, 513}
+	}
+	return []int{260}
 }
 
 func cases(tier string) []caseCfg {
@@ -289,18 +318,21 @@ func cases(tier string) []caseCfg {
 	nf := len(families(nil))
 	for n := 0; n <= maxN(tier); n++ {
 		for f := 0; f < nf; f++ {
-			cs = append(cs, caseCfg{n, f})
+			cs = append(cs, caseCfg{n, f, false})
 		}
 	}
 	for _, n := range largeNs(tier) {
-		cs = append(cs, caseCfg{n, 1}, caseCfg{n, 5})
+		cs = append(cs, caseCfg{n, 1, false}, caseCfg{n, 5, false})
+	}
+	for _, n := range hugeNs(tier) {
+		cs = append(cs, caseCfg{n, 1, true})
 	}
 	return cs
 }
 
 // enumerated case c = (n, family): the fault-free run, then EVERY write position k and
 // EVERY failure kind.
-func runCase(r *driver.Run, n int, fam family) {
+func runCase(r *driver.Run, n int, fam family, sampled bool) {
 	r.Logf("config n=%d weights=%s", n, fam.name)
 	base := runLIB(r, n, fam.f, &faultyWriter{r: r})
 	r.Logf("fault-free: %d writes, %d bytes, err=%v", base.w.calls, len(base.w.buf), base.err)
@@ -313,11 +345,19 @@ func runCase(r *driver.Run, n int, fam family) {
 	if W > 3 {
 		r.Nontrivial = true
 	}
+	stride := 1
+	if sampled && W > 600 {
+		stride = W / 300
+		r.Probe("write-positions-sampled-for-very-large-n")
+	}
 	for k := 0; k < W; k++ {
+		if stride > 1 && k >= 20 && k < W-20 && k%stride != 0 {
+			continue
+		}
 		for _, kd := range kinds {
 			kd := kd
 			k := k
-			fw := &faultyWriter{r: r, permanent: kd.permanent}
+			fw := &faultyWriter{r: r, permanent: kd.permanent, temp: kd.temp}
 			fw.plan = func(call int, p []byte) failMode {
 				if call == k {
 					return kd.mode
@@ -335,7 +375,7 @@ func runCase(r *driver.Run, n int, fam family) {
 				r.Probe("planned-fault-not-reached")
 			}
 			judge(r, o, n, fam, sched)
-			if r.Tracing && len(r.Trace) > mark { // keep only the failing schedule in the trace
+			if r.Tracing && len(r.Trace) > mark && k > 0 { // keep the schedules of position 0 as samples, and the failing one
 				r.Trace = r.Trace[:mark]
 			}
 		}
@@ -364,7 +404,7 @@ func runRandom(r *driver.Run) {
 	rate := []int{0, 1, 2, 5, 20}[t.Draw(5)]
 	permanentAfter := t.Chance(1, 4)
 	r.Logf("config n=%d weights=%s fault-rate=%d%% permanent=%v", n, fam.name, rate, permanentAfter)
-	fw := &faultyWriter{r: r}
+	fw := &faultyWriter{r: r, temp: t.Chance(1, 3)}
 	fw.plan = func(call int, p []byte) failMode {
 		if rate == 0 || t.Draw(100) >= rate {
 			return noFail
@@ -390,7 +430,7 @@ func main() {
 		Property: "C20",
 		Engine:   "writer-faults",
 		Level:    "fault_enumeration",
-		Rule: "enumerated case = (n, weight family) for every n up to 14 (24 thorough) x 6 families, plus larger n (33, 65, 70; thorough: 31..33, 63..65, 100, 128..130) x 2 families: one fault-free execution of tsp.LIB whose output is parsed by an independent TSPLIB parser, then one execution per (write position k, failure kind) for EVERY k below the number of Write calls the fault-free run made and every kind in {transient, permanent} x {0 bytes accepted, short count, full count with error}; " +
+		Rule: "enumerated case = (n, weight family) for every n up to 14 (24 thorough) x 6 families, plus larger n (33, 65, 70; thorough: 31..33, 63..65, 100, 128..130) x 2 families: one fault-free execution of tsp.LIB whose output is parsed by an independent TSPLIB parser, then one execution per (write position k, failure kind) for EVERY k below the number of Write calls the fault-free run made and every kind in {transient, permanent} x {0 bytes accepted, short count, full count with error} plus transient failures whose error reports Temporary() == true; for very large n (260; thorough 255..257, 300, 513) about 300 evenly spaced positions plus the first and last 20; " +
 			"random runs draw n, a weight family (incl. tape-random 64-bit weights) and a per-write failure rate, so several failures land in one execution. A case is non-trivial when LIB performs more than 3 writes (i.e. reaches the buffered weight section); distinct = distinct fingerprints of (writes, bytes, faults fired) sequences.",
 		Assumptions: []string{
 			"a Write that returns n < len(p) with a nil error violates the io.Writer contract and is never injected",
@@ -412,7 +452,7 @@ func main() {
 				fs := families(nil)
 				cs := cases(r.Tier)
 				c := cs[r.Case%len(cs)]
-				runCase(r, c.n, fs[c.fam])
+				runCase(r, c.n, fs[c.fam], c.sampled)
 				return
 			}
 			runRandom(r)
